@@ -304,7 +304,11 @@ fn generate(entry: &str, ir: &Path, cfg: &Cfg, seed: u64, work: &Path, tag: &str
         created.get_or_insert_with(Vec::new).push(format!("{}/{}", cwd.display(), stray[0]));
     }
     let out_root = out.display().to_string();
-    let created = created.map(|c| c.into_iter().filter(|p| !(p == &out_root || p.starts_with(&format!("{}/", out_root)) || out_root.starts_with(&format!("{}/", p)) || p.starts_with("/dev/"))).collect::<Vec<_>>());
+    // the harness's own artefacts (hash-seed probe written by the preloaded shim)
+    let own = probe_file.display().to_string();
+    // lib2 generates once before into a second requested directory of its own
+    let prior = work.join(format!("prior-{}-s{}", tag, seed)).display().to_string();
+    let created = created.map(|c| c.into_iter().filter(|p| p != &own && !(entry == "lib2" && p.starts_with(&prior))).filter(|p| !(p == &out_root || p.starts_with(&format!("{}/", out_root)) || out_root.starts_with(&format!("{}/", p)) || (p.starts_with("/dev/") && !p.starts_with("/dev/shm/")))).collect::<Vec<_>>());
     (Run { tree: t, ok, stderr, probe }, created)
 }
 
